@@ -125,7 +125,8 @@ PROPS = {
             {"engine": "D", "crate": "d_reg", "harnesses": [
                 {"name": "c06_limits", "covers": ["accepted", "rejected", "merged"], "quick": {"max_paths": 1000, "timeout": 300}},
                 {"name": "c06_auth", "covers": ["accepted", "rejected"], "quick": {"max_paths": 1000, "timeout": 300}},
-                {"name": "c06_converge", "covers": ["delivered", "same_entry_two_writers"], "quick": {"max_paths": 1000, "timeout": 600}},
+                {"name": "c06_converge", "covers": ["delivered", "same_entry_two_writers"], "quick": {"max_paths": 1000, "timeout": 600},
+                 "thorough": {"env": {"C06_POOL": 4}, "max_paths": 100000, "timeout": 1800}},
             ]},
         ],
         "assumptions": [
@@ -251,7 +252,8 @@ PROPS = {
         "parts": [
             {"engine": "D", "crate": "d_node", "harnesses": [
                 {"name": "c15_chunk", "covers": ["returned", "error"], "quick": {"max_paths": 1000, "timeout": 300}},
-                {"name": "c15_vault", "covers": ["returned", "error", "error_reply_with_record_refused"], "quick": {"max_paths": 10000, "timeout": 600}},
+                {"name": "c15_vault", "covers": ["returned", "error", "error_reply_with_record_refused"], "quick": {"max_paths": 10000, "timeout": 600},
+                 "thorough": {"env": {"C15_VERSIONS": 3}, "max_paths": 200000, "timeout": 1800}},
             ]},
         ],
         "assumptions": NODE_ASSUMPTIONS[:1] + [
